@@ -51,3 +51,37 @@ fn u05_flags_parse_bytes() {
     }
     assert!(f.0 == want);
 }
+
+// encode_many's count prefix, for EVERY count: the bytes written before the first element are exactly
+// the LEB128 the (contracted) parser reads back as that count, with nothing left over.
+// The element source reports a symbolic `len()` and yields nothing, so no loop depends on the count
+// (complete over all usize counts; LEB128 loops bounded by the 10-byte width).
+struct U05Counted(usize);
+impl Iterator for U05Counted {
+    type Item = u8;
+    fn next(&mut self) -> Option<u8> {
+        None
+    }
+    fn size_hint(&self) -> (usize, Option<usize>) {
+        (self.0, Some(self.0))
+    }
+}
+impl ExactSizeIterator for U05Counted {}
+
+#[kani::proof]
+#[kani::unwind(12)]
+fn u05_encode_many_prefix() {
+    let n: usize = kani::any();
+    let mut out: Vec<u8> = Vec::with_capacity(16);
+    encode_many(&mut out, U05Counted(n), |b: &mut Vec<u8>, x: u8| b.push(x));
+    assert!(out.len() >= 1 && out.len() <= 10);
+    match crate::storage::parse::leb128_u64::<crate::storage::parse::leb128::Error>(
+        crate::storage::parse::Input::new(&out),
+    ) {
+        Ok((rest, got)) => {
+            assert!(got == n as u64);
+            assert!(rest.is_empty());
+        }
+        Err(_) => panic!("count prefix is not a LEB128 the parser accepts"),
+    }
+}
